@@ -473,8 +473,10 @@ def judge_output(reqs, out, part, case, where):
         elif a not in allowed:
             got = 'ident-reply' if a == IDENTREPLY else a if a in REQUEST2REPLY.values() else 'an-unknown-action'
             # an error reply naming another action: the framing / decoding lost the request's action - one class for all actions
-            sig = f'C07:O3:error-reply-names-a-different-action:{req.lcls()}' if iserr else \
-                f'C07:O3:{req.acls()}:answered-with-{got}'
+            latin = [ERRORPREFIX + f[0].decode('latin-1') for f in req.readings if not f[0].isascii()]
+            sig = f'C07:O3:error-reply-spells-a-non-ascii-action-in-latin-1:{req.jsonclass}' if a in latin else \
+                f'C07:O3:error-reply-names-a-different-action:{req.lcls()}' if iserr else \
+                f'C07:O3:{req.acls()}:answered-with-{got}' + (':space-lookalike' if req.lookalike else '')
             part.violation(sig, case,
                            f'request {req.raw[:80]!r} answered {raw[:120]!r}, expected one of {sorted(allowed)}')
             continue
@@ -789,7 +791,8 @@ def special_lines():
                            b'change m:_s "' + b'a' * 1010 + b'"', b'change m:_s "' + b'a' * 1009 + b'"',
                            b'change m:_s "' + b'a' * 1008 + b'"', b'change m:_s "' + b'a' * 2033 + b'"',
                            b'ping nonce\x1f', b'ping \xc2\xa0x', b'deactivate\x1c', b'\xc2\xa0deactivate',
-                           b'read m:value\xe2\x80\xa8', b'*IDN?\xe3\x80\x80', b'\xc2\x85read m:value')):
+                           b'read m:value\xe2\x80\xa8', b'*IDN?\xe3\x80\x80', b'\xc2\x85read m:value',
+                           b'\xc3\xa4ction m:value {', b'read m:\xc3\xa4 {', b'\xc3\xa4ction m:value 1')):
         add(f'special-{i}', l)
     return S
 
